@@ -44,8 +44,8 @@ def check_tables(aes, rep):
         if not ok:
             d = aes.table_diffs[name][0]
             case = dict(kind='table', table=name, index=d[0], got=d[1], expected=d[2])
-            rc, out, so, se = R.run_native('props.c05_native', ['replay'], case)
-            rep.violation('table[%s]' % name, MOD + '::' + name, 'entry %s is %s, FIPS-197 gives %s' % d, case, solver_output='table evaluation', reproduced=bool(out and out.get('reproduced')), native_msg=out)
+            rp_, out = R.replay_native('props.c05_native', case)
+            rep.violation('table[%s]' % name, MOD + '::' + name, 'entry %s is %s, FIPS-197 gives %s' % d, case, solver_output='table evaluation', reproduced=rp_, native_msg=out)
 
 def prim_obligations(aes, rep, name, dtype, lead_kind, timeout):
     """ensures result[r, :] == spec(state[r, :]) for a generic row r (N symbolic) or for the 1-D shape"""
@@ -82,15 +82,15 @@ def prim_obligations(aes, rep, name, dtype, lead_kind, timeout):
             m = res['model']
             row = [solve.mval(m, H._term(e)) & 0xff for e in H.row_elems(pre, lead)]
             case = dict(kind='prim', fn=name, dtype=dtype, state=[row] if lead_kind == 'N' else row)
-            rc, o, so, se = R.run_native('props.c05_native', ['replay'], case)
-            rep.violation(oname, MOD + '::' + name, 'result differs from FIPS-197 %s' % name, case, solver_output=str(m)[:2000], reproduced=bool(o and o.get('reproduced')), native_msg=o)
+            rp_, o = R.replay_native('props.c05_native', case)
+            rep.violation(oname, MOD + '::' + name, 'result differs from FIPS-197 %s' % name, case, solver_output=str(m)[:2000], reproduced=rp_, native_msg=o)
         # frame: the caller's array is not written
         fr = dict(result='unsat' if H.untouched(st) else 'sat', backend='frame-scan', secs=0)
         rep.obligation('frame[%s,%s,%s]' % (name, dtype, lead_kind), MOD + '::' + name, 'frame', fr)
         if fr['result'] == 'sat':
             case = dict(kind='frame', fn=name, dtype=dtype, state=[[(7 * j + 3) % 256 for j in range(width)]])
-            rc, o, so, se = R.run_native('props.c05_native', ['replay'], case)
-            rep.violation('frame[%s,%s,%s]' % (name, dtype, lead_kind), MOD + '::' + name, 'argument array is modified', case, reproduced=bool(o and o.get('reproduced')), native_msg=o)
+            rp_, o = R.replay_native('props.c05_native', case)
+            rep.violation('frame[%s,%s,%s]' % (name, dtype, lead_kind), MOD + '::' + name, 'argument array is modified', case, reproduced=rp_, native_msg=o)
 
 def ark_obligation(aes, rep, dtype, timeout):
     def body():
@@ -107,8 +107,8 @@ def ark_obligation(aes, rep, dtype, timeout):
         if res['result'] == 'sat':
             m = res['model']
             case = dict(kind='ark', dtype=dtype, state=[[solve.mval(m, H._term(e)) & 0xff for e in H.row_elems(st, idx)]], key=[[solve.mval(m, H._term(e)) & 0xff for e in H.row_elems(k, idx)]])
-            rc, o, so, se = R.run_native('props.c05_native', ['replay'], case)
-            rep.violation('post[add_round_key,%s]' % dtype, MOD + '::add_round_key', 'differs from xor', case, str(m)[:1000], bool(o and o.get('reproduced')), o)
+            rp_, o = R.replay_native('props.c05_native', case)
+            rep.violation('post[add_round_key,%s]' % dtype, MOD + '::add_round_key', 'differs from xor', case, str(m)[:1000], rp_, o)
         fr = dict(result='unsat' if H.untouched(st, k) else 'sat', backend='frame-scan', secs=0)
         rep.obligation('frame[add_round_key,%s]' % dtype, MOD + '::add_round_key', 'frame', fr)
 
@@ -129,8 +129,8 @@ def inverse_lemmas(aes, rep, timeout):
             if res['result'] == 'sat':
                 m = res['model']; row = [solve.mval(m, H._term(e)) & 0xff for e in H.row_elems(st, idx)]
                 case = dict(kind='inverse', f=f, g=g, state=[row])
-                rc, o, so, se = R.run_native('props.c05_native', ['replay'], case)
-                rep.violation('lemma[%s(%s(x))==x]' % (g, f), MOD + '::' + g, 'inverse pair does not cancel', case, str(m)[:1000], bool(o and o.get('reproduced')), o)
+                rp_, o = R.replay_native('props.c05_native', case)
+                rep.violation('lemma[%s(%s(x))==x]' % (g, f), MOD + '::' + g, 'inverse pair does not cancel', case, str(m)[:1000], rp_, o)
     # the S-box inverse facts used above are table facts
     ok = all(F.INV_SBOX[F.SBOX[x]] == x for x in range(256)) and aes.table_ok['SBOX'] and aes.table_ok['INV_SBOX']
     rep.obligation('lemma[INV_SBOX o SBOX == id]', MOD + '::INV_SBOX', 'table', dict(result='unsat' if ok else 'unknown', backend='table-eval', secs=0))
@@ -190,8 +190,8 @@ def composition(aes, rep, mode, kl, shape_kind, dtype, stops, timeout):
             if exc is not None:
                 rep.obligation(oname, MOD + '::_parametric_cipher', 'post', dict(result='sat', backend='exec', secs=0), sample=repr(exc))
                 case = dict(kind='cipher', mode=mode, dtype=dtype, state=[[0] * 16], key=[[0] * kl], at_round=at_round, after_step=after_step, shape=shape_kind)
-                rc, o, so, se = R.run_native('props.c05_native', ['replay'], case)
-                rep.violation(oname, MOD + '::_parametric_cipher', 'raises %r inside the documented range' % (exc,), case, None, bool(o and o.get('reproduced')), o)
+                rp_, o = R.replay_native('props.c05_native', case)
+                rep.violation(oname, MOD + '::_parametric_cipher', 'raises %r inside the documented range' % (exc,), case, None, rp_, o)
                 continue
             N, st, key, out = outc
             many = shape_kind != '1-1'
@@ -222,15 +222,15 @@ def composition(aes, rep, mode, kl, shape_kind, dtype, stops, timeout):
             rep.obligation(oname, MOD + '::_parametric_cipher', 'post', res, sample='%s(x,k,at_round=%s,after_step=%s)[r,:] == fips197.cipher(x[r],RoundKeys(k),...)' % (mode, at_round, after_step))
             if res['result'] == 'sat':
                 case = dict(kind='cipher', mode=mode, dtype=dtype, at_round=at_round, after_step=after_step, shape=shape_kind, state=None, key=None, kl=kl)
-                rc, o, so, se = R.run_native('props.c05_native', ['replay'], case)
-                rep.violation(oname, MOD + '::_parametric_cipher', 'operation sequence differs from FIPS-197 at this stop point', case, str(res['model'])[:1500], bool(o and o.get('reproduced')), o)
+                rp_, o = R.replay_native('props.c05_native', case)
+                rep.violation(oname, MOD + '::_parametric_cipher', 'operation sequence differs from FIPS-197 at this stop point', case, str(res['model'])[:1500], rp_, o)
             fr = dict(result='unsat' if H.untouched(st, key) else 'sat', backend='frame-scan', secs=0)
             if fr['result'] == 'sat' or (at_round in (0, None) and after_step == 3):
                 rep.obligation('frame[%s,%d,%s]' % (mode, kl, shape_kind), MOD + '::_parametric_cipher', 'frame', fr)
                 if fr['result'] == 'sat':
                     case = dict(kind='cipher-frame', mode=mode, dtype=dtype, at_round=at_round, after_step=after_step, shape=shape_kind, kl=kl)
-                    rc, o, so, se = R.run_native('props.c05_native', ['replay'], case)
-                    rep.violation('frame[%s,%d,%s]' % (mode, kl, shape_kind), MOD + '::_parametric_cipher', 'caller array modified', case, None, bool(o and o.get('reproduced')), o)
+                    rp_, o = R.replay_native('props.c05_native', case)
+                    rep.violation('frame[%s,%d,%s]' % (mode, kl, shape_kind), MOD + '::_parametric_cipher', 'caller array modified', case, None, rp_, o)
 
 def exceptional(aes, rep, timeout):
     """outside the documented ranges the call is refused (ValueError/TypeError), never a wrong state"""
@@ -280,7 +280,7 @@ def main():
     seed = int(os.environ.get('VERIF_SEED', '0'))
     if a.replay:
         case = json.load(open(a.replay))['case']
-        rc, o, so, se = R.run_native('props.c05_native', ['replay'], case); print(so, se); sys.exit(0 if o and not o.get('reproduced') else 1)
+        rp_, o = R.replay_native('props.c05_native', case); print(o); sys.exit(1 if rp_ else 0)
     rep = R.Report('C05', a.tier, seed)
     timeout = solve.TIMEOUT_MS[a.tier]
     errs = F.self_check()
